@@ -69,13 +69,41 @@ fn op_code(op: Op) -> u64 {
     (op.k as u64) | (op.a as u64 & 0xffff) << 8 | (op.b as u64 & 0xffff) << 24 | (op.f as u64 & 0xffff) << 40
 }
 
-fn run_vec<K: Kind<Tok> + Kind<Wide> + Kind<tok::Plain>>(plan: &Plan, st: &mut Stats, fl: &mut Flags, counts: &mut (u32, u32), viol_op: &mut Option<OpK>) {
+fn run_zst<K: Kind<crate::zexec::ZDrop>>(plan: &Plan, st: &mut Stats, fl: &mut Flags, counts: &mut (u32, u32), viol_op: &mut Option<OpK>) {
+    let mut ex = crate::zexec::ZExec::<K>::new();
+    ex.start(st);
+    for (i, op) in plan.ops.iter().enumerate() {
+        set_step(i as u32);
+        tok::note(EV_OP, op_code(*op));
+        tok::trace_line(|| format!("  step {}: {:?}", i, op));
+        if ex.step(*op) {
+            counts.0 += 1;
+            st.op_counts[(op.k as usize).min(N_OPK - 1)] += 1;
+            fl.see(*op);
+        } else {
+            counts.1 += 1;
+            tok::trace_line(|| "    (skipped: not modelled for zero-sized elements, or precondition does not hold)".to_string());
+        }
+        if tok::has_violation() {
+            *viol_op = Some(op.k);
+            break;
+        }
+    }
+    set_step(u32::MAX);
+    tok::trace_line(|| "  end of run: everything still held is dropped".to_string());
+    ex.finish();
+}
+
+fn run_vec<K: Kind<Tok> + Kind<Wide> + Kind<tok::Plain> + Kind<crate::zexec::ZDrop>>(plan: &Plan, st: &mut Stats, fl: &mut Flags, counts: &mut (u32, u32), viol_op: &mut Option<OpK>) {
     if plan.elem == 1 {
         st.runs_wide += 1;
         run_vec_x::<K, Wide>(plan, st, fl, counts, viol_op)
     } else if plan.elem == 2 {
         st.runs_plain += 1;
         run_vec_x::<K, tok::Plain>(plan, st, fl, counts, viol_op)
+    } else if plan.elem == 3 {
+        st.runs_zst += 1;
+        run_zst::<K>(plan, st, fl, counts, viol_op)
     } else {
         run_vec_x::<K, Tok>(plan, st, fl, counts, viol_op)
     }
